@@ -30,7 +30,10 @@ Proof. intros. unfold skm_set, g_skm_set. destruct (lookup k (sk_vals m)); refle
 Lemma gen_skm_get :
   snd (g_skm_get true) = RetO 1 /\ (snd (g_skm_get false) = RetO 0 \/ snd (g_skm_get false) = RetO 1) /\
   (forall b, fst (g_skm_get b) = []).
-Proof. repeat split; try (left; reflexivity); try (right; reflexivity). intros b; destruct b; reflexivity. Qed.
+Proof.
+  split; [reflexivity|]. split; [first [left; reflexivity | right; reflexivity]|].
+  intros b; destruct b; reflexivity.
+Qed.
 
 Lemma firstn_min : forall (A : Type) n (l : list A), firstn n l = firstn (Nat.min n (length l)) l.
 Proof.
